@@ -74,8 +74,11 @@ def _sess_init(**kw):
 STREAMS = {}
 
 
-def _def_stream(name, msgs, queue_bundle=False, cfg=None):
-    STREAMS[name] = dict(msgs=msgs, queue_bundle=queue_bundle, cfg=cfg or {})
+def _def_stream(name, msgs, queue_bundle=False, cfg=None, dead_tail=None):
+    ''' dead_tail: messages that follow an octet which is no message type of this protocol version (0x42).  The length of such a
+    message is unknown, so the stream cannot be framed from there on: nothing behind that octet is a message, however the
+    octets are cut. '''
+    STREAMS[name] = dict(msgs=msgs, queue_bundle=queue_bundle, cfg=cfg or {}, dead_tail=dead_tail)
 
 
 _CONTACT = dict(type='contact', flags=0)
@@ -116,6 +119,8 @@ _def_stream('m_ack', [
     _KA,
 ], queue_bundle=True)
 _def_stream('m_ka_tail', [_CONTACT, _sess_init(), _KA])
+_def_stream('m_dead', [_CONTACT, _sess_init(), *_transfer(1, [b'ok'])],
+            dead_tail=[*_transfer(2, [b'never', b'framed']), _KA, dict(type='XFER_ACK', flags=0, transfer_id=9, length=3)])
 _def_stream('m_zero', [_CONTACT, _sess_init(nodeid=b''), *_transfer(1, [b'']), *_transfer(2, [b'']), _KA])
 
 # segments as large as the receiver's own segment MRU allows (small MRU configured), with and without the Transfer Length item
@@ -173,7 +178,14 @@ _def_stream('l_many', [
 
 
 def stream_bytes(name):
-    return b''.join(tw.encode(msg) for msg in STREAMS[name]['msgs'])
+    data = b''.join(tw.encode(msg) for msg in STREAMS[name]['msgs'])
+    if STREAMS[name].get('dead_tail'):
+        data += b'\x42' + b''.join(tw.encode(msg) for msg in STREAMS[name]['dead_tail'])
+    return data
+
+
+def _live_length(name):
+    return len(b''.join(tw.encode(msg) for msg in STREAMS[name]['msgs']))
 
 
 def _boundaries(name):
@@ -232,7 +244,7 @@ def cases(tier, seed):
         for role in (('passive', 'active') if thorough else ('passive',)):
             out += _compositions_mask_cases(name, role)
     # all single cuts (and double cuts) of medium streams
-    for name in ('m_basic', 'm_ext', 'm_ack', 'm_ka_tail', 'm_zero', 'm_mru', 'm_flags'):
+    for name in ('m_basic', 'm_ext', 'm_ack', 'm_ka_tail', 'm_zero', 'm_mru', 'm_flags', 'm_dead'):
         nbytes = len(stream_bytes(name))
         for role in ('passive', 'active'):
             singles = [(cut,) for cut in range(1, nbytes)]
@@ -308,8 +320,8 @@ def run_framing(name, cuts, role, keep_detail=False):
     ''' Feed one stream under one cut set; return (violations, counters). '''
     spec = STREAMS[name]
     data = stream_bytes(name)
-    expected, parsed_to, status = tw.parse_stream(data)
-    assert status == 'complete' and parsed_to == len(data)
+    expected, parsed_to, status = tw.parse_stream(data[:_live_length(name)])
+    assert status == 'complete' and parsed_to == _live_length(name)
     slices = []
     prev = 0
     for (_msg, end) in expected:
@@ -389,7 +401,11 @@ def run_framing(name, cuts, role, keep_detail=False):
         # buffer occupancy: exactly the octets beyond the last complete message
         last_end = slices[next_expected - 1][1] if next_expected else 0
         closed = hdl.get_app_socket() is None
-        if not closed:
+        if closed and spec.get('dead_tail'):
+            # the endpoint gave the connection up at the octet it cannot frame: no further read happens on a closed socket
+            counters['dead_streams_closed'] = counters.get('dead_streams_closed', 0) + 1
+            break
+        if not closed and not (spec.get('dead_tail') and cum > _live_length(name)):
             counters['buffer_checks'] += 1
             used = hdl.recv_buffer_used()
             if used != cum - last_end:
